@@ -10,14 +10,26 @@ Open Scope nat_scope.
 
 Definition is_nil {A} (l : list A) : bool := match l with [] => true | _ => false end.
 
-(* expressions: everything except lambda, comprehensions and calls with * / ** arguments *)
-(* call arguments: positional ones first, then named ones; no * / ** *)
+(* expressions: everything except lambda and comprehensions *)
+(* call arguments in the order the resolver accepts: positional, named, then at most one *args, then at most one **kwargs *)
 Definition is_named_arg (a : arg) : bool := match a with ANamed _ _ => true | _ => false end.
+Definition shape2 (args : list arg) : bool :=
+  match args with [] => true | AStarStar _ :: [] => true | _ => false end.
+Fixpoint shape1 (args : list arg) : bool :=
+  match args with
+  | [] => true
+  | ANamed _ _ :: r => shape1 r
+  | AStar _ :: r => shape2 r
+  | AStarStar _ :: [] => true
+  | _ => false
+  end.
 Fixpoint pos_then_named (args : list arg) : bool :=
   match args with
   | [] => true
   | APos _ :: r => pos_then_named r
-  | ANamed _ _ :: r => forallb is_named_arg r
+  | ANamed _ _ :: r => shape1 r
+  | AStar _ :: r => shape2 r
+  | AStarStar _ :: [] => true
   | _ => false
   end.
 
@@ -29,7 +41,7 @@ Fixpoint ok_expr (e : expr) : bool :=
   | ECond c t f => ok_expr c && ok_expr t && ok_expr f
   | ETuple es | EList es => forallb ok_expr es
   | ECall fn args _ =>
-      ok_expr fn && forallb (fun a => match a with APos e | ANamed _ e => ok_expr e | _ => false end) args
+      ok_expr fn && forallb (fun a => match a with APos e | ANamed _ e | AStar e | AStarStar e => ok_expr e end) args
       && pos_then_named args
   | ESlice x lo hi st _ =>
       ok_expr x && match lo with Some e => ok_expr e | None => true end
@@ -44,7 +56,7 @@ Fixpoint ok_target (t : target) : bool :=
   | TName _ _ => true
   | TIndex x y _ => ok_expr x && ok_expr y
   | TSeq ts => forallb ok_target ts
-  | TDot _ _ _ => false
+  | TDot x _ _ => ok_expr x
   end.
 
 (* parameters of every kind; default values are fragment expressions *)
